@@ -434,6 +434,32 @@ def shard_inputs(s, ns, tier, seed):
                 part.violation('input-mutated api=render/lift/asm instr=%s' % hx, 'instruction object %s changed after rendering/lifting/re-assembling it' % hx, {'hex': hx})
             else:
                 part.keys.add(core.h64(('instr', hx)))
+        # the address argument of the lifter is passed for reading: it must come back unchanged, and a lift that reuses the
+        # same address object after other lifts must equal the lift with a fresh one
+        LIFT_HEX = ['01d8', '7402', '0f8f02000000', 'e2fe', 'e302', 'e805000000', 'ffd0', 'c3', 'c20800', 'eb05', 'e905000000', 'f3a4', 'cd80',
+                    '667f02', '660f8f0200', '66e2fe', '66e302', '66e80500', '66e90500', '66c3', '67e302', '9a112233445566', 'ff1500104000']
+        for addr in (0x1005, 0x401005, 0xfffffff0):
+            shared_eip = X.ExprInt32(addr)
+            for hx in LIFT_HEX:
+                try:
+                    with core.quiet_stdout():
+                        i = ia32.x86mnemo.dis(bytes.fromhex(hx))
+                        fresh = [str(e) for e in c.eh.get_instr_expr(ia32.x86mnemo.dis(bytes.fromhex(hx)), X.ExprInt32(addr), [])]
+                        again = [str(e) for e in c.eh.get_instr_expr(i, shared_eip, [])]
+                except Exception:
+                    part.skip('lifting raises (C11)')
+                    continue
+                part.n += 1
+                now = (type(shared_eip.arg).__name__, int(shared_eip.arg))
+                if now != ('uint32', addr):
+                    part.violation('input-mutated api=get_instr_expr arg=my_eip instr=%s' % hx,
+                                   'lifting %s changed the address object it was given: ExprInt32(%#x) is now %s(%#x)' % (hx, addr, now[0], now[1]), {'hex': hx, 'addr': addr})
+                    shared_eip = X.ExprInt32(addr)
+                elif again != fresh:
+                    part.violation('probe=[lift %s] after=[lifts sharing the address object]' % hx,
+                                   'lift of %s with a reused address object gives %s, with a fresh one %s' % (hx, again[:3], fresh[:3]), {'hex': hx, 'addr': addr})
+                else:
+                    part.keys.add(core.h64(('lift-eip', hx, addr)))
         m = c.eh.x86_machine()
         before = dump(m)
         m.eval_expr(c.sem.eax + c.sem.ebx, {})
@@ -443,6 +469,75 @@ def shard_inputs(s, ns, tier, seed):
             part.violation('input-mutated api=eval_expr machine', 'eval_expr changed the machine state it was given for reading', {'machine': True})
         else:
             part.keys.add(core.h64('machine'))
+    return part
+
+
+# ---------------------------------------------------------------------------
+# assembler call pairs: every ordered pair (L1, L2) of a line alphabet in which mnemonics that treat an operand
+# differently share the SAME operand text (memo / shared-dict leaks between parses)
+
+def pair_lines():
+    ops = ['QWORD PTR [esi]', 'BYTE PTR [esi+8]', 'WORD PTR 0', 'DWORD PTR [ebx]', 'WORD PTR [eax]', '[esi]', 'eax', 'ax', '4', 'foo', 'fs:[eax]', 'TBYTE PTR [esi]']
+    m1 = ['cmpxchg8b', 'fld', 'fild', 'fstp', 'fadd', 'prefetchnta', 'inc', 'neg', 'push', 'pop', 'call', 'jmp', 'lgdt', 'sldt', 'invlpg', 'clflush', 'fbld', 'int']
+    L = ['%s %s' % (m, o) for m in m1 for o in ops]
+    for o in ops[:5] + ops[10:11]:
+        L += ['mov %s, ax' % o, 'mov ax, %s' % o, 'lea eax, %s' % o, 'movq mm0, %s' % o, 'movzx eax, %s' % o, 'cmp %s, 1' % o, 'shl %s, 1' % o, 'movsd xmm0, %s' % o]
+    L += ['movl %eax, 4(%esp)', 'nop', 'ret 4', 'rep movsb', 'mov eax, ]']
+    return L
+
+
+def asm_line(c, line):
+    f = c.ia32.x86mnemo.asm_att if '%' in line else c.ia32.x86mnemo.asm
+    try:
+        with core.quiet_stdout():
+            return json.dumps(hexs(f(line)))
+    except Exception as ex:
+        return 'EXC:%s' % type(ex).__name__
+
+
+def _forked(fn):
+    r, w = os.pipe()
+    pid = os.fork()
+    if pid == 0:
+        os.close(r)
+        try:
+            data = pickle.dumps(fn())
+        except BaseException as ex:
+            data = pickle.dumps('EXC:harness %r' % (ex,))
+        with os.fdopen(w, 'wb') as f:
+            f.write(data)
+        os._exit(0)
+    os.close(w)
+    with os.fdopen(r, 'rb') as f:
+        data = f.read()
+    os.waitpid(pid, 0)
+    return pickle.loads(data)
+
+
+def shard_asm_pairs(s, ns, tier, seed):
+    c = make_ctx()
+    part = core.Part()
+    L = pair_lines()
+    base = _forked(lambda: [_forked(lambda l=l: asm_line(c, l)) for l in L])      # every line alone, in a pristine image
+    for i1, l1 in enumerate(L):
+        if i1 % ns != s:
+            continue
+
+        def after_l1():
+            first = asm_line(c, l1)
+            return first, [_forked(lambda l=l: asm_line(c, l)) for l in L]
+        first, res = _forked(after_l1)
+        part.transitions += 1
+        part.traces += 1
+        for l2, b, r in zip(L, base, res):
+            part.n += 1
+            if b == r:
+                part.keys.add(core.h64(('pair', l1, l2)))
+            else:
+                m1, m2 = l1.split()[0], l2.split()[0]
+                shared = ' '.join(l1.split()[1:]) == ' '.join(l2.split()[1:])
+                part.violation('asm-pair first=%s then=%s operand=%s' % (m1, m2, 'same-text' if shared else 'different-text'),
+                               'asm(%r) returns %s in a pristine process but %s after asm(%r)' % (l2, b[:80], r[:80], l1), {'pair': [l1, l2]}, size=len(l1) + len(l2))
     return part
 
 
@@ -638,6 +733,9 @@ def run(tier, seed):
         seen |= by_depth[d]
     part.states += len(seen)
     pi = core.run_sharded(shard_inputs, (tier, seed), nshards=core.NPROC * 2)
+    pa = core.run_sharded(shard_asm_pairs, (tier, seed), nshards=core.NPROC * 4)
+    part.counters['asm_pairs'] = pa.n
+    part.merge(pa)
     part.counters['input_immutability_cases'] = pi.n
     part.merge(pi)
     cache_experiment(part)
@@ -665,6 +763,11 @@ def replay(w):
         _, _, res = fork_history(c, tuple(w['history']), probes)
         bad = base[w['probe']] != res[w['probe']]
         return bad, 'probe %r: pristine %s ; after %s: %s' % (CALLS[w['probe']][0], base[w['probe']][:200], [CALLS[i][0] for i in w['history']], res[w['probe']][:200])
+    if 'pair' in w:
+        l1, l2 = w['pair']
+        b = _forked(lambda: asm_line(c, l2))
+        r = _forked(lambda: (asm_line(c, l1), asm_line(c, l2))[1])
+        return b != r, 'asm(%r): pristine %s ; after asm(%r): %s' % (l2, b[:200], l1, r[:200])
     if 'config' in w:
         part = core.Part()
         cache_experiment(part)
